@@ -381,9 +381,7 @@ class ColumnDefinition:
                 raise MasterSchemaRowParsingError(log_message)
 
             # Set the column name and strip the brackets
-            column_name = column_text[match_object.start() : match_object.end()].strip(
-                "[]"
-            )
+            column_name = match_object.group(1)
 
             # Set the remaining column text
             remaining_column_text = column_text[match_object.end() :]
